@@ -31,7 +31,7 @@ class C07(scen.WorldProp):
                   "delivered while Wheatley was ringing")
 
     def cases(self, rng, tier):
-        n = 70 if tier == "quick" else 700
+        n = 300 if tier == "quick" else 3000
         for i in range(n):
             N = rng.choice([4, 5, 6, 6, 8])
             kind = rng.choice(["plainhunt", "plainhunt", "pn", "comp"])
